@@ -58,3 +58,8 @@ add("C17", "E1",
     "Every unary operator x every catalogue value and every binary operator x every ordered pair for ValOpsFactory::<i32,f64> (function pointer, evaluation time, parse-time folding) and ValOpsFactory::<i64,f32> (function pointer): no call may panic, and overflow, invalid casts, negation/abs of the smallest integer, MIN % -1 and wrong operand kinds must yield Val::Error.",
     "Panics are unwinding (overflow-checks on) and caught per call.",
     "DESIGN.md §3 C17")
+add("C19", "E1",
+    "exhaustive argument sweep of every default float operator: all 2^32 f32 bit patterns for unary operators (thorough), bit-pattern lattices for f64 and for binary operators, special-value catalogue with all ordered pairs, directly and through parsed expressions",
+    "Function pointers and constants from FloatOpsFactory::<f32|f64>::make(), and the same names through FlatEx/DeepEx in function, juxtaposed, infix and call form, compared bit-for-bit (NaN = NaN) with an independent name -> std primitive table with the documented argument order; the set of names itself is checked against the documented list.",
+    "Trusted: the harness' name -> primitive table (harness/src/c19.rs); libm determinism within a process. min/max on two zeros / NaN are skipped (not pinned down by std).",
+    "DESIGN.md §3 C19")
